@@ -234,6 +234,36 @@ func main() {
 			ts = append(ts, pr)
 			ti = append(ti, runToy(pr))
 		}
+		// call-depth boundary family (depthProgram): deepest nesting = limit-3 .. limit+3, every shape; the limit the sweep is
+		// centred on is the one the implementation names in its own error message (the model's comes from Gen/Consts.v,
+		// regenerated from interp.go every run), so both sides of the boundary are compared whatever the constant is
+		{
+			limit := 1000
+			rr := hx.RunAwk("function f(n) { return f(n + 1) } BEGIN { f(1) }", &interp.Config{Stdin: strings.NewReader(""), Environ: []string{}, NoExec: true, NoFileWrites: true}, nil)
+			if rr.Err != nil {
+				if j := strings.LastIndex(rr.Err.Error(), "depth of "); j >= 0 {
+					fmt.Sscanf(rr.Err.Error()[j+len("depth of "):], "%d", &limit)
+				}
+			}
+			nDepth := 6
+			if o.Tier == "thorough" {
+				nDepth = 60
+			}
+			for k := 0; k < nDepth; k++ {
+				for d := limit - 3; d <= limit+3; d++ {
+					src := depthProgram(r, d)
+					prog, err := parser.ParseProgram([]byte(src), nil)
+					if err != nil {
+						rep.HarnessError("depth-boundary program does not parse: %v: %s", err, src)
+						continue
+					}
+					rep.Count("exec:depth-boundary-programs")
+					tl = append(tl, "exec\t"+prog.VerifDumpAST(false)+"\t300000")
+					ts = append(ts, src)
+					ti = append(ti, runToy(src))
+				}
+			}
+		}
 		ans, err := hx.ModelEval(o.ModelRun, tl)
 		if err != nil {
 			rep.HarnessError("%v", err)
